@@ -19,6 +19,8 @@ fn l_edge() -> Layout { use KeyCode::*; Layout { mappings: vec![m(&[B], &[B], Re
 // outputs with key codes at and above 562 (the virtual keyboard registers key bits 1..562 only), alone and mixed with ordinary keys
 fn l_highcodes() -> Layout { use KeyCode::*; Layout { mappings: vec![m(&[A], &[LEFTSHIFT, RIGHT_UP], Repeat::Normal), m(&[A, B], &[KBDINPUTASSIST_PREV], Repeat::Normal), m(&[C], &[RIGHT_DOWN], Repeat::Disabled)] } }
 fn l_edge_neg() -> Layout { use KeyCode::*; Layout { mappings: vec![m(&[B], &[B], Repeat::Special { keys: vec![C], delay_ms: -1, interval_ms: 30 }), m(&[A], &[A], Repeat::Special { keys: vec![C], delay_ms: i32::MAX, interval_ms: i32::MIN })] } }
+// a chord of three keys, two of them adjacent modifiers the user can hold
+fn l_adjacent() -> Layout { use KeyCode::*; Layout { mappings: vec![m(&[B], &[B], Repeat::Special { keys: vec![LEFTCTRL, LEFTSHIFT, C], delay_ms: 130, interval_ms: 30 }), m(&[J], &[J], Repeat::Special { keys: vec![C, LEFTSHIFT, LEFTCTRL, LEFTALT], delay_ms: 50, interval_ms: 20 })] } }
 fn l_chord() -> Layout { use KeyCode::*; Layout { mappings: vec![m(&[CAPSLOCK], &[], Repeat::Normal), m(&[CAPSLOCK, J], &[LEFT], Repeat::Normal)] } }
 fn l_two_repeats() -> Layout {
   use KeyCode::*;
@@ -31,7 +33,19 @@ fn l_two_repeats() -> Layout {
 fn l_super_dvorak() -> Layout { load_layout_text(crate::default_fancy_layouts::DEFAULT_LAYOUTS["super-dvorak"]).expect("super-dvorak") }
 
 fn cfg(alphabet: &[KeyCode], max_events: usize, max_tablet: usize, devs: usize, ticks: usize, interval_ms: u64) -> EnvCfg {
-  EnvCfg { alphabet: alphabet.to_vec(), max_events, max_tablet, devs, ticks, tablet_end: false, late_us: vec![1000, interval_ms * 1000 - 1000], exact_deadline_arrival: true, max_calls: 400, script: vec![], burst_sizes: vec![], max_bursts: 0, single_event_wakeups: false }
+  EnvCfg { alphabet: alphabet.to_vec(), max_events, max_tablet, devs, ticks, tablet_end: false, late_us: vec![1000, interval_ms * 1000 - 1000], exact_deadline_arrival: true, max_calls: 400, script: vec![], burst_sizes: vec![], max_bursts: 0, single_event_wakeups: false, verbose: false }
+}
+
+
+/// ten distinct keys pressed in one notification, then tablet events: reports of eight and more events
+fn big_report_cfg(max_tablet: usize) -> EnvCfg {
+  use KeyCode::*;
+  let keys = [A, S, D, F, G, H, J, K, L, SEMICOLON, Q, W];
+  let mut c = cfg(&[A], 0, max_tablet, 0, 0, 30);
+  c.script = keys.iter().map(|k| crate::keys::Event::Pressed(*k)).collect();
+  c.burst_sizes = vec![7, 8, 9, 12];
+  c.max_bursts = 1; c.max_calls = 300;
+  c
 }
 
 fn families(id: &str, tier: Tier) -> Vec<BFamily<'static>> {
@@ -50,6 +64,9 @@ fn families(id: &str, tier: Tier) -> Vec<BFamily<'static>> {
       add("high key codes: A->[LEFTSHIFT,RIGHT_UP], [A,B]->[KBDINPUTASSIST_PREV], C->[RIGHT_DOWN] over {A,B,C}", l_highcodes(), cfg(&[A, B, C], if q { 4 } else { 5 }, 0, if q { 0 } else { 1 }, 0, 30));
       { let mut cl = cfg(&[A, B, LEFTSHIFT], if q { 6 } else { 7 }, 0, 0, 0, 30); cl.single_event_wakeups = true;
         add("no-repeat layout over {A,B,LEFTSHIFT}: histories up to 6 (7) events, one per wake-up", l_norepeat(), cl); }
+      add("large reports: 7..12 distinct keys pressed in one notification, then up to 2 tablet events (pass-through layout)", Layout { mappings: vec![] }, big_report_cfg(2));
+      // a repeat timer is live while batches arrive: wake-ups just before, at, and (deviation) after the deadline
+      add("repeat layout over {A,B}: batches arriving around a live timer's deadline, late wake-ups", l_repeat(), cfg(&[A, B], if q { 3 } else { 4 }, 0, 1, 1, 30));
       // long bursts: a fixed alternating script delivered in one or two notifications of every size from a menu around
       // powers of two (a loop that reads at most k events per wake-up, k <= 257, is caught whatever k is)
       {
@@ -63,6 +80,9 @@ fn families(id: &str, tier: Tier) -> Vec<BFamily<'static>> {
       let mut ct = cfg(&[A], if q { 4 } else { 5 }, 2, if q { 1 } else { 2 }, 0, 30); ct.tablet_end = true;
       add("plain A->B over {A} interleaved with up to 2 tablet events, either device may go away", l_plain(), ct);
       add("chord layout over {CAPSLOCK,J} interleaved with a tablet event", l_chord(), cfg(&[CAPSLOCK, J], if q { 4 } else { 5 }, 1, if q { 0 } else { 1 }, 0, 30));
+      // the loop's other input: the verbose flag (diagnostics must not change what is written)
+      { let mut cv = cfg(&[A, B, LEFTSHIFT], if q { 4 } else { 5 }, 1, 1, 0, 30); cv.verbose = true; cv.tablet_end = true;
+        add("verbose loop: no-repeat layout over {A,B,LEFTSHIFT} with a tablet event, either device may go away", l_norepeat(), cv); }
     }
     "C11" => {
       let (l, t, d) = if q { (4, 3, 1) } else { (5, 3, 1) };
@@ -74,8 +94,11 @@ fn families(id: &str, tier: Tier) -> Vec<BFamily<'static>> {
         add("repeat layout over {A,B,LEFTCTRL}: histories up to 5 (6) events, one per wake-up, up to 3 time-outs", l_repeat(), cl); }
       add("numeric edge: B->B Special{[C],0,1} (zero delay, 1 ms interval) over {B,A}", l_edge(), cfg(&[B, A], if q { 3 } else { 4 }, 0, if q { 1 } else { 1 }, if q { 4 } else { 6 }, 1));
       add("numeric edge: negative and extreme delay / interval values over {A,B}", l_edge_neg(), cfg(&[A, B], if q { 3 } else { 4 }, 0, if q { 0 } else { 1 }, 2, 30));
+      add("chords [LEFTCTRL,LEFTSHIFT,C] and [C,LEFTSHIFT,LEFTCTRL,LEFTALT] over {B,J,LEFTCTRL,LEFTSHIFT}: several adjacent chord keys held at the tick", l_adjacent(), { let mut c = cfg(&[B, J, LEFTCTRL, LEFTSHIFT], if q { 4 } else { 5 }, 0, 0, 2, 30); c.single_event_wakeups = true; c });
       add("three Special mappings (chords [LEFTCTRL,C], [C,LEFTCTRL,B], []) over {B,J,K}", l_two_repeats(), cfg(&[B, J, K], if q { 4 } else { 5 }, 0, if q { 0 } else { 1 }, if q { 3 } else { 3 }, 10));
       if !q { add("super-dvorak repeat keys over {K,J,LEFTCTRL}", l_super_dvorak(), cfg(&[K, J, LEFTCTRL], 4, 0, 1, 4, 30)); }
+      { let mut cv = cfg(&[B, LEFTCTRL], if q { 3 } else { 4 }, 1, 1, 3, 30); cv.verbose = true;
+        add("verbose loop: repeat layout over {B,LEFTCTRL} with a tablet event and time-outs", l_repeat(), cv); }
     }
     "C12" => {
       let (l, d) = if q { (4, 1) } else { (5, 2) };
@@ -84,11 +107,16 @@ fn families(id: &str, tier: Tier) -> Vec<BFamily<'static>> {
       add("chord layout over {CAPSLOCK,J} with up to 2 tablet events", l_chord(), cfg(&[CAPSLOCK, J], l, 2, if q { 1 } else { 1 }, 0, 30));
       add("repeat layout over {B,LEFTCTRL} with up to 2 tablet events and time-outs", l_repeat(), cfg(&[B, LEFTCTRL], l, 2, if q { 1 } else { 1 }, 2, 30));
       if !q { add("plain A->B over {A}, longer histories with up to 3 tablet events", l_plain(), cfg(&[A], 7, 3, 1, 0, 30)); }
+      add("large reports: 7..12 distinct keys pressed in one notification, then up to 3 tablet events (pass-through layout)", Layout { mappings: vec![] }, big_report_cfg(3));
       // long histories, one event per wake-up: what survives in the mapper across On/Off (no-repeat and Special mappings, a foreign key)
       let mut cl = cfg(&[A, C], if q { 7 } else { 8 }, 2, 0, 0, 30); cl.single_event_wakeups = true;
       add("no-repeat A->A Disabled, B->B over {A,C}: histories up to 7 (8) events, one per wake-up, up to 2 tablet events", l_norepeat(), cl);
       let mut cl2 = cfg(&[B, C], if q { 6 } else { 7 }, 2, 0, 1, 30); cl2.single_event_wakeups = true;
       add("repeat layout over {B,C}: histories up to 6 (7) events, one per wake-up, up to 2 tablet events, one time-out", l_repeat(), cl2);
+      { let mut cv = cfg(&[A, C], if q { 4 } else { 5 }, 3, 1, 0, 30); cv.verbose = true; cv.tablet_end = true;
+        add("verbose loop: plain A->B over {A,C} with up to 3 tablet events, either device may go away", l_plain(), cv);
+        let mut cv2 = cfg(&[B, LEFTCTRL], if q { 4 } else { 5 }, 2, 0, 2, 30); cv2.verbose = true; cv2.single_event_wakeups = true;
+        add("verbose loop: repeat layout over {B,LEFTCTRL}, one event per wake-up, up to 2 tablet events and time-outs", l_repeat(), cv2); }
     }
     "C20" => {
       let (l, d) = if q { (4, 1) } else { (5, 1) };
@@ -101,6 +129,9 @@ fn families(id: &str, tier: Tier) -> Vec<BFamily<'static>> {
       add("high key codes: A->[LEFTSHIFT,RIGHT_UP], [A,B]->[KBDINPUTASSIST_PREV], C->[RIGHT_DOWN] over {A,B,C}", l_highcodes(), cfg(&[A, B, C], if q { 3 } else { 4 }, 1, 0, 0, 30));
       { let mut cl = cfg(&[B, LEFTCTRL], if q { 4 } else { 5 }, 1, 0, 3, 30); cl.single_event_wakeups = true;
         add("repeat layout over {B,LEFTCTRL}: histories up to 4 (5) events, one per wake-up, up to 3 time-outs", l_repeat(), cl); }
+      add("large reports: 7..12 distinct keys pressed in one notification, then up to 2 tablet events (pass-through layout)", Layout { mappings: vec![] }, big_report_cfg(2));
+      { let mut cv = cfg(&[B, LEFTCTRL], if q { 3 } else { 4 }, 1, 1, 2, 30); cv.verbose = true; cv.tablet_end = true;
+        add("verbose loop: repeat layout over {B,LEFTCTRL} with a tablet event, time-outs, either device may go away", l_repeat(), cv); }
     }
     _ => unreachable!(),
   }
@@ -182,7 +213,7 @@ fn chord_signature(_prop: &str, _clause: &str, _detail: &str) -> Option<String> 
 
 pub fn env_json(c: &EnvCfg) -> Value {
   json!({"alphabet": c.alphabet.iter().map(|k| format!("{}", k)).collect::<Vec<_>>(), "max_events": c.max_events, "max_tablet": c.max_tablet, "devs": c.devs, "ticks": c.ticks, "tablet_end": c.tablet_end, "late_us": c.late_us, "exact_deadline_arrival": c.exact_deadline_arrival, "max_calls": c.max_calls,
-    "script": c.script.iter().map(|e| match e { crate::keys::Event::Pressed(k) => format!("+{}", k), crate::keys::Event::Released(k) => format!("-{}", k) }).collect::<Vec<_>>(), "burst_sizes": c.burst_sizes, "max_bursts": c.max_bursts, "single_event_wakeups": c.single_event_wakeups})
+    "script": c.script.iter().map(|e| match e { crate::keys::Event::Pressed(k) => format!("+{}", k), crate::keys::Event::Released(k) => format!("-{}", k) }).collect::<Vec<_>>(), "burst_sizes": c.burst_sizes, "max_bursts": c.max_bursts, "single_event_wakeups": c.single_event_wakeups, "verbose": c.verbose})
 }
 
 pub fn replay_artefact(v: &Value) -> i32 {
@@ -198,6 +229,7 @@ pub fn replay_artefact(v: &Value) -> i32 {
     burst_sizes: e["burst_sizes"].as_array().map(|a| a.iter().map(|x| x.as_u64().unwrap() as usize).collect()).unwrap_or_default(),
     max_bursts: e["max_bursts"].as_u64().unwrap_or(0) as usize,
     single_event_wakeups: e["single_event_wakeups"].as_bool().unwrap_or(false),
+    verbose: e["verbose"].as_bool().unwrap_or(false),
   };
   let choices: Vec<u16> = v["choices"].as_array().unwrap().iter().map(|x| x.as_u64().unwrap() as u16).collect();
   let fail_at = v["fail_at"].as_u64().map(|k| k as usize);
